@@ -189,6 +189,18 @@ theorem cap_end_from_negotiation (cfg : Cfg) (s : St) (m : Msg) (hq : s.fastq = 
 
 example : Out.capEnd ∈ (step exCfg exS3 ex903).fast ∧ (step exCfg exS3 ex903).st.epoch = exS3.epoch ∧ exS3.fastq = [] := by decide
 
+/-- The same along every history of the real SocketDriver (`SocketDriver(irc)`, then any number of `run()`s
+with arbitrary clocks, due / not-due reconnects and recv() chunks): at most one CAP END per epoch. -/
+theorem cap_end_once_real (cfg : Cfg) (hr : cfg.realDriver = true) (base s : St) (r : DReach cfg base s) :
+    s.endCount = 0 ∨ (s.endCount = 1 ∧ lateState s.fsm = true) :=
+  (absInv_end cfg).dreach hr r
+
+/-- … and SASL traffic only in an epoch in which `sasl` was acknowledged. -/
+theorem sasl_after_ack_real (cfg : Cfg) (hr : cfg.realDriver = true) (base s : St) (r : DReach cfg base s) :
+    (isSaslState s.fsm = true → s.saslAcked = true) ∧ (∀ o ∈ s.fastq, o.kind.sasl = true → s.saslAcked = true) := by
+  have h := (absInv_sasl cfg).dreach hr r
+  exact ⟨h.2.1, fun o ho hk => h.2.2.1 o.kind (by simp only [α, List.mem_map]; exact ⟨o, ho, rfl⟩) hk⟩
+
 /-! ### "no request outstanding" at CAP END: false for servers that send CAP NEW / CAP DEL mid-negotiation
 
 Full statement (FALSE on the pinned tree, known finding C08-capend-outstanding):
